@@ -307,7 +307,10 @@ def run_check(cid, cfg, tier, seed, binary, work, a, t0):
         st, out = run_replay(binary_for(binary, cfg, test), test, path, work)
         k = witness_paths.get(os.path.normpath(path))
         if k and k.get("status") == "known":
-            if st == "fail":
+            if st == "fail" and k.get("match") and k["match"] not in out:
+                # the witness fails, but not in the listed way: that is a different violation
+                violations.append((path, "known-finding witness fails with an unlisted signature: " + out[-600:]))
+            elif st == "fail":
                 print("KNOWN-FINDING: property=%s %s [%s]" % (cid, k["what"], k["key"]))
             elif st == "error":
                 inconclusive.append("witness %s: %s" % (path, out[-300:]))
